@@ -29,6 +29,7 @@ pub enum AssemblyError {
     KernelProcNotFound(ProcedureId),
     LibraryError(String),
     LocalProcNotFound(u16, String),
+    LocalsNotDeclared(u16),
     ParamOutOfBounds(u64, u64, u64),
     ParsingError(String),
     PhantomCallsNotAllowed(RpoDigest),
@@ -96,6 +97,10 @@ impl AssemblyError {
         Self::LocalProcNotFound(proc_idx, module_path.to_string())
     }
 
+    pub fn locals_not_declared(index: u16) -> Self {
+        Self::LocalsNotDeclared(index)
+    }
+
     pub fn param_out_of_bounds(value: u64, min: u64, max: u64) -> Self {
         Self::ParamOutOfBounds(value, min, max)
     }
@@ -153,6 +158,7 @@ impl fmt::Display for AssemblyError {
             KernelProcNotFound(proc_id) => write!(f, "procedure {proc_id} not found in kernel"),
             LibraryError(err) | ParsingError(err) | ProcedureNameError(err) => write!(f, "{err}"),
             LocalProcNotFound(proc_idx, module_path) => write!(f, "procedure at index {proc_idx} not found in module {module_path}"),
+            LocalsNotDeclared(index) => write!(f, "procedure local at index {index} cannot be accessed: the procedure does not declare any locals"),
             ParamOutOfBounds(value, min, max) => write!(f, "parameter value must be greater than or equal to {min} and less than or equal to {max}, but was {value}"),
             PhantomCallsNotAllowed(mast_root) => write!(f, "cannot call phantom procedure with MAST root {mast_root}: phantom calls not allowed"),
             ReExportedProcModuleNotFound(reexport) => write!(f, "re-exported proc {} with id {} not found", reexport.name(), reexport.proc_id()),
